@@ -138,10 +138,20 @@ def delta_frame(rng, codec):
     return {"h264": h264_delta, "h265": h265_delta, "av1": av1_delta, "vp9": vp9_delta}[codec](rng)
 
 
+ADTS_BOUNDARY_LENGTHS = [8, 10, 255, 256, 257, 2047, 2048, 2049, 4095, 4096, 4097, 4104, 6000, 8190, 8191]
+
+
 def audio_frame(rng, acodec):
     if acodec == "opus":
-        return opus_pkt(rng)
-    return adts(rng, protection_absent=rng.random() < 0.8)
+        return opus_pkt(rng) if rng.random() < 0.9 else opus_pkt(rng, rng.choice([255, 1275]))
+    pa = rng.random() < 0.8
+    if rng.random() < 0.12:
+        # exercise every bit of the 13-bit frame length field
+        fl = rng.choice(ADTS_BOUNDARY_LENGTHS)
+        hl = 7 if pa else 9
+        if fl > hl:
+            return adts(rng, payload_len=fl - hl, protection_absent=pa)
+    return adts(rng, protection_absent=pa)
 
 
 def cfg_str(codec="h264", w=640, h=480, fps=30.0, audio="none", rate=48000, ch=2, fast=1, md=0, title=None,
@@ -331,11 +341,13 @@ def gen_C14(rng, tier, dist):
             t += 0.02
         ops.append("fin")
         cases.append(pcase(cfg_str(audio=rng.choice(AUDIOS[1:7]), fast=rng.randrange(2)), ops))
-    # systematic ADTS frame-length sweep (thorough): all 13-bit lengths around the buffer size
-    if tier == "thorough":
+    # systematic ADTS frame-length sweep: every bit of the 13-bit length field, around the buffer size
+    if True:
         for pa in (True, False):
             hl = 7 if pa else 9
-            for fl in list(range(0, 40)) + [8190, 8191]:
+            sweep = list(range(0, 40)) + [255, 256, 1023, 1024, 2047, 2048, 4095, 4096, 4097, 4104, 6000, 8190, 8191] if tier == "thorough" \
+                else [6, 7, 8, 9, 10, 11, 255, 256, 2047, 2048, 4095, 4096, 4097, 4104, 6000, 8191]
+            for fl in sweep:
                 for buflen in (fl - 1, fl, fl + 1, fl + 9):
                     if buflen < 0 or buflen > 9000:
                         continue
@@ -727,6 +739,12 @@ def gen_C13(rng, tier, dist):
             kind = (k * 7 + hi) % 17
             out.append(pcase(cfg + " sink=failat:%d:%d twin=nofault" % (k, kind), ops2))
         dist["exhaustive_fail_offsets_per_history"] = maxoff
+        # transient faults: the sink fails once at offset k and works afterwards (a retry must still not duplicate)
+        for k in list(range(0, 64)) + list(range(64, maxoff, 11)):
+            out.append(pcase(cfg + " sink=failonce:%d:%d twin=nofault" % (k, (k + hi) % 17), ops2))
+            if k < 64:
+                out.append(pcase(cfg + " sink=cap:%d+failonce:%d:%d twin=nofault" % (rng.choice([1, 3, 5]), k, k % 17), ops2))
+        dist["transient_fail_offsets_per_history"] = 64 + len(range(64, maxoff, 11))
         for k in range(0, maxoff, 37):
             out.append(pcase(cfg + " sink=zeroat:%d twin=nofault" % k, ops2))
         for cap in (1, 2, 7, 4096):
